@@ -57,24 +57,48 @@ def gen_items(rng, n):
     return items
 
 
-def check_output(out, where, items, keyf, first, second, exc, canon):
+def check_output(where, items, keyf, first, second, exc, canon):
+    """The oracle on one generic sorting: (failures, key sequence or None)."""
+    fails = []
     if exc:
-        out.failures.append(dict(where, what="sorting failed with %s" % exc, kind="exception"))
-        return None
+        fails.append(dict(where, what="sorting failed with %s" % exc, kind="exception"))
+        return fails, None
     keys = [keyf(x) for x in first]
     if sorted(map(repr, first)) != sorted(map(repr, items)):
-        out.failures.append(dict(where, what="output is not a permutation of the input: %d in, %d out" % (len(items), len(first)),
-                                 kind="not-permutation", got=first[:8]))
-        return None
+        fails.append(dict(where, what="output is not a permutation of the input: %d in, %d out" % (len(items), len(first)),
+                          kind="not-permutation", got=first[:8]))
+        return fails, None
     if any(keys[i] > keys[i + 1] for i in range(len(keys) - 1)):
-        out.failures.append(dict(where, what="output is not in non-decreasing key order", kind="not-sorted", keys=keys[:12]))
-        return None
+        fails.append(dict(where, what="output is not in non-decreasing key order", kind="not-sorted", keys=keys[:12]))
+        return fails, None
     if second != first:
-        out.failures.append(dict(where, what="iterating again gives a different sequence", kind="reiterate",
-                                 first=len(first), second=len(second)))
+        fails.append(dict(where, what="iterating again gives a different sequence", kind="reiterate",
+                          first=len(first), second=len(second)))
     if canon is not None and keys != canon:
-        out.failures.append(dict(where, what="key sequence depends on capacity / policy / insertion order", kind="not-canonical"))
-    return keys
+        fails.append(dict(where, what="key sequence depends on capacity / policy / insertion order", kind="not-canonical", canon=canon))
+    return fails, keys
+
+
+def eval_generic(order, kname, cap, sp, tmp, canon):
+    """One generic sorting on the implementation and the oracle's verdict (shared by run and replay_case).
+
+    `order` is the insertion order.  Returns (where, first, second, exc, failures, keys, model request or None)."""
+    keyf = KEYFS[kname]
+    first, second, exc = generic_run(order, keyf, cap, sp, tmp)
+    where = {"items": order, "key": kname, "capacity": cap, "always_spill": sp}
+    fails, keys = check_output(where, order, keyf, first, second, exc, canon)
+    req = None
+    if kname in ("int", "mod") and first is not None:
+        req = ({"op": "sorter.run", "cap": cap, "always_spill": sp, "items": [[keyf(x), i] for i, x in enumerate(order)]},
+               [keyf(x) for x in first])
+    return where, first, second, exc, fails, keys, req
+
+
+def model_differs(r, keys, m):
+    mkeys = [p[0] for p in m["out"]]
+    if sorted(p[1] for p in m["out"]) != list(range(len(r["items"]))) or mkeys != keys:
+        return {"op": "sorter.run", "request": r, "model_keys": mkeys, "impl_keys": keys}
+    return None
 
 
 def generic_cases(ctx, out, tmp):
@@ -84,37 +108,91 @@ def generic_cases(ctx, out, tmp):
         n = rng.choice([0, 1, 2, 3, 4, 5, 6, 8, 9])
         items = gen_items(rng, n)
         kname = rng.choice(list(KEYFS))
-        keyf = KEYFS[kname]
         canon = None
         for cap in range(1, n + 2):
             for sp in (True, False):
                 order = list(items)
                 rng.shuffle(order)
                 out.evaluations += 1
-                first, second, exc = generic_run(order, keyf, cap, sp, tmp)
-                where = {"items": order, "key": kname, "capacity": cap, "always_spill": sp}
-                keys = check_output(out, where, order, keyf, first, second, exc, canon)
+                where, first, second, exc, fails, keys, req = eval_generic(order, kname, cap, sp, tmp, canon)
+                out.failures += fails
                 if keys is not None and canon is None:
                     canon = keys
                 if n >= 2:
                     out.nontrivial.add(repr((sorted(items), kname, cap, sp)))
                 out.distribution["key:" + kname] += 1
-                if kname in ("int", "mod") and first is not None:
-                    reqs.append(({"op": "sorter.run", "cap": cap, "always_spill": sp,
-                                  "items": [[keyf(x), i] for i, x in enumerate(order)]}, [keyf(x) for x in first]))
+                if req is not None:
+                    reqs.append(req)
         if len(out.samples) < 3 and n >= 4:
             out.sample({"items": items, "key": kname, "capacities": "1..%d" % (n + 1), "policies": [True, False]})
     mo = ctx.driver.run([r for r, _ in reqs])
     for (r, keys), m in zip(reqs, mo):
-        mkeys = [p[0] for p in m["out"]]
-        if sorted(p[1] for p in m["out"]) != list(range(len(r["items"]))) or mkeys != keys:
-            out.disagreements.append({"op": "sorter.run", "request": r, "model_keys": mkeys, "impl_keys": keys})
+        d = model_differs(r, keys, m)
+        if d:
+            out.disagreements.append(d)
+
+
+def make_maf_record(config, spec):
+    """A record of a MAF sorting case from (tumor, normal or None, chromosome, start, end)."""
+    t, nn, c, s, e = spec
+    if config == "scheme":
+        return SC.typed_record(None, t, nn, c, s, e)
+    return SC.untyped_record(t, nn or "", c, str(s), str(e))
+
+
+def maf_keyseq(locs, order):
+    return [[l["tumor"] if order == "BarcodesAndCoordinate" else None, l["normal"] if order == "BarcodesAndCoordinate" else None,
+             str(l["chr"]), int(l["start"]), int(l["stop"])] for l in locs]
+
+
+def eval_maf(order, contigs, config, cap, specs, canon):
+    """One MAF sorting (records built from `specs`, added in that order) and the oracle's verdict (shared by run and
+    replay_case).  Returns (where, output texts or None, failures, key sequence or None)."""
+    from maflib.sorter import MafSorter, MafSorterCodec, Sorter
+    recs = [make_maf_record(config, sp) for sp in specs]
+    kw = {"contigs": contigs} if contigs else {}
+    where = {"order": order, "contigs": contigs, "codec": config, "capacity": cap, "specs": [list(sp) for sp in specs],
+             "records": [str(r).split("\t")[:8] if config != "scheme" else [SC.loc_json(r)] for r in recs][:8]}
+    fails = []
+    try:
+        if config == "scheme":
+            sorter = MafSorter(order, scheme=impl.scheme_by_annotation("gdc-1.0.0"), max_objects_in_ram=cap, **kw)
+        elif config == "inferred":
+            sorter = MafSorter(order, max_objects_in_ram=cap, **kw)
+        else:
+            so = SC.order_obj(order, contigs)
+            sorter = Sorter(cap, MafSorterCodec(column_names=list(recs[0].keys()) if recs else ["a"]), so.sort_key())
+        for r in recs:
+            sorter += r
+        first = list(sorter)
+        second = list(sorter)
+        sorter.close()
+    except Exception as e:  # noqa
+        fails.append(dict(where, what="MAF sorting failed with %s" % exc_name(e), kind="exception"))
+        return where, None, fails, None
+    texts = [str(r) for r in first]
+    texts_in = sorted(str(r) for r in recs)
+    if sorted(texts) != texts_in:
+        fails.append(dict(where, what="output records are not the added records (text)", kind="not-permutation"))
+        return where, texts, fails, None
+    vals_in = sorted(repr([impl.enc_val(v) for v in r.column_values()]) for r in recs)
+    if sorted(repr([impl.enc_val(v) for v in r.column_values()]) for r in first) != vals_in:
+        fails.append(dict(where, what="output records do not carry equal values", kind="values"))
+    locs = [SC.loc_json(r) for r in first]
+    bad = [i for i in range(len(locs) - 1) if expected_cmp(locs[i], locs[i + 1], order, contigs or []) > 0]
+    if bad:
+        fails.append(dict(where, what="output is not in non-decreasing key order (documented order)", kind="not-sorted",
+                          at=bad[0], keys=locs[bad[0]:bad[0] + 2]))
+    if [str(r) for r in second] != texts:
+        fails.append(dict(where, what="iterating again gives a different sequence", kind="reiterate"))
+    keyseq = maf_keyseq(locs, order)
+    if canon is not None and keyseq != canon:
+        fails.append(dict(where, what="key sequence depends on the capacity / insertion order", kind="not-canonical", canon=canon))
+    return where, texts, fails, keyseq
 
 
 def maf_cases(ctx, out):
-    from maflib.sorter import MafSorter, MafSorterCodec, Sorter
     rng = ctx.rng("maf")
-    sch = impl.scheme_by_annotation("gdc-1.0.0")
     for _ in range(ctx.scale(40, 400)):
         order = rng.choice(["Coordinate", "BarcodesAndCoordinate"])
         contigs = rng.choice([None, ["1", "2", "10", "X"], ["10", "X", "2", "1"]])
@@ -125,50 +203,12 @@ def maf_cases(ctx, out):
         canon = None
         for cap in sorted({1, 2, 3, max(1, n), n + 1}):
             out.evaluations += 1
-            recs = []
-            for (t, nn, c, s, d) in specs:
-                if config == "scheme":
-                    recs.append(SC.typed_record(rng, t, nn, c, s, s + d))
-                else:
-                    recs.append(SC.untyped_record(t, nn or "", c, str(s), str(s + d)))
-            rng.shuffle(recs)
-            kw = {"contigs": contigs} if contigs else {}
-            where = {"order": order, "contigs": contigs, "codec": config, "capacity": cap,
-                     "records": [str(r).split("\t")[:8] if config != "scheme" else [SC.loc_json(r)] for r in recs][:8]}
-            try:
-                if config == "scheme":
-                    sorter = MafSorter(order, scheme=sch, max_objects_in_ram=cap, **kw)
-                elif config == "inferred":
-                    sorter = MafSorter(order, max_objects_in_ram=cap, **kw)
-                else:
-                    so = SC.order_obj(order, contigs)
-                    sorter = Sorter(cap, MafSorterCodec(column_names=list(recs[0].keys()) if recs else ["a"]), so.sort_key())
-                for r in recs:
-                    sorter += r
-                first = list(sorter)
-                second = list(sorter)
-                sorter.close()
-            except Exception as e:  # noqa
-                out.failures.append(dict(where, what="MAF sorting failed with %s" % exc_name(e), kind="exception"))
+            added = [(t, nn, c, s, s + d) for (t, nn, c, s, d) in specs]
+            rng.shuffle(added)
+            where, texts, fails, keyseq = eval_maf(order, contigs, config, cap, added, canon)
+            out.failures += fails
+            if keyseq is None:
                 continue
-            texts_in = sorted(str(r) for r in recs)
-            if sorted(str(r) for r in first) != texts_in:
-                out.failures.append(dict(where, what="output records are not the added records (text)", kind="not-permutation"))
-                continue
-            vals_in = sorted(repr([impl.enc_val(v) for v in r.column_values()]) for r in recs)
-            if sorted(repr([impl.enc_val(v) for v in r.column_values()]) for r in first) != vals_in:
-                out.failures.append(dict(where, what="output records do not carry equal values", kind="values"))
-            locs = [SC.loc_json(r) for r in first]
-            bad = [i for i in range(len(locs) - 1) if expected_cmp(locs[i], locs[i + 1], order, contigs or []) > 0]
-            if bad:
-                out.failures.append(dict(where, what="output is not in non-decreasing key order (documented order)", kind="not-sorted",
-                                         at=bad[0], keys=locs[bad[0]:bad[0] + 2]))
-            if [str(r) for r in second] != [str(r) for r in first]:
-                out.failures.append(dict(where, what="iterating again gives a different sequence", kind="reiterate"))
-            keyseq = [[l["tumor"] if order == "BarcodesAndCoordinate" else None, l["normal"] if order == "BarcodesAndCoordinate" else None,
-                       str(l["chr"]), int(l["start"]), int(l["stop"])] for l in locs]
-            if canon is not None and keyseq != canon:
-                out.failures.append(dict(where, what="key sequence depends on the capacity / insertion order", kind="not-canonical"))
             canon = canon or keyseq
             out.distribution["codec:" + config] += 1
             if n >= 2:
@@ -184,6 +224,78 @@ def run(ctx):
         generic_cases(ctx, out, tmp)
     maf_cases(ctx, out)
     return out
+
+
+def _untuple(x):
+    return tuple(x) if isinstance(x, list) else x
+
+
+def specs_of(failure):
+    """Insertion-order record specs of a stored MAF case ("specs", or rebuilt from the older "records" field)."""
+    if "specs" in failure:
+        return [tuple(sp) for sp in failure["specs"]]
+    out = []
+    for r in failure.get("records", []):
+        if failure["codec"] == "scheme":
+            l = r[0]
+            out.append((l["tumor"], l["normal"], str(l["chr"]), int(l["start"]), int(l["stop"])))
+        else:       # Hugo, Chromosome, Start, End, Tumor, Normal, ...
+            out.append((r[4], r[5] or None, r[1], int(r[2]), int(r[3])))
+    return out
+
+
+def replay_case(ctx, failure):
+    """Re-evaluate the stored failing input on the current implementation; return the list of failure dicts it
+    produces now (empty list = the property holds on that input)."""
+    if "items" in failure and failure.get("key") in KEYFS and "capacity" in failure:
+        order = [_untuple(x) for x in failure["items"]]
+        kname, cap, sp = failure["key"], failure["capacity"], bool(failure.get("always_spill"))
+        keyf = KEYFS[kname]
+        canon = failure.get("canon")
+        canon = sorted(keyf(x) for x in order) if canon is None else [_untuple(k) for k in canon]
+        print("generic sorter: add %d items %s, key=%s, capacity=%d, always_spill=%s, iterate twice" % (len(order), order, kname, cap, sp))
+        with tempfile.TemporaryDirectory() as tmp:
+            where, first, second, exc, fails, keys, req = eval_generic(order, kname, cap, sp, tmp, canon)
+        if exc:
+            print("implementation: raised %s" % exc)
+        else:
+            print("implementation: first pass %s" % (first,))
+            print("                keys %s%s" % ([keyf(x) for x in first], "" if second == first else "; second pass %s" % (second,)))
+        print("expected keys:  %s" % canon)
+        if req is not None:
+            try:
+                m = ctx.driver.run([req[0]])[0]
+                print("model keys:     %s%s" % ([p[0] for p in m["out"]], "   (differs from the implementation)" if model_differs(req[0], req[1], m) else ""))
+            except Exception as e:  # noqa
+                print("model: not available (%s)" % str(e)[:200])
+        else:
+            print("model: not consulted for %s" % ("a failed sorting" if first is None else "key kind %r (only int / mod keys are run on the model)" % kname))
+        for f in fails:
+            print("oracle fails: %s" % f["what"])
+        return fails
+    if "codec" in failure and "order" in failure and "capacity" in failure and ("specs" in failure or "records" in failure):
+        order, contigs, config, cap = failure["order"], failure.get("contigs") or None, failure["codec"], failure["capacity"]
+        specs = specs_of(failure)
+        canon = failure.get("canon")
+        if canon is None:
+            # the key sequence every capacity must produce: the documented order applied to the added records
+            import functools
+            locs = [SC.loc_json(make_maf_record(config, sp)) for sp in specs]
+            locs.sort(key=functools.cmp_to_key(lambda a, b: expected_cmp(a, b, order, contigs or [])))
+            canon = maf_keyseq(locs, order)
+        print("MAF sorter: order=%s contigs=%s codec=%s capacity=%d; %d records added as (tumor, normal, chr, start, end): %s" % (
+            order, contigs, config, cap, len(specs), [list(sp) for sp in specs]))
+        where, texts, fails, keyseq = eval_maf(order, contigs, config, cap, specs, canon)
+        if texts is None:
+            print("implementation: %s" % fails[0]["what"])
+        else:
+            print("implementation: %d records out%s" % (len(texts), "" if keyseq is None else ", keys %s" % keyseq))
+        print("expected keys:  %s" % canon)
+        print("model: MAF-record sortings are not run on the model (the generic sorter and the sort keys are)")
+        for f in fails:
+            print("oracle fails: %s" % f["what"])
+        return fails
+    return None
 
 
 def search(ctx):
